@@ -109,6 +109,16 @@ class LedgerSim:
                 # blocks: by-itself valid, never validated in chain); everything above it inherits the trivial
                 # target and is fully valid relative to its parent.
                 cs, easy = W.easy_block_one(cs)
+        elif base == 'hboundary2':
+            # two trusted tips whose histories differ at the start of the retarget period being closed
+            reset_horizon(False)
+            h0 = 171_359
+            e1, e2 = config.get('elapsed', 1_209_600), config.get('elapsed2', 604_800)
+            st1, st2 = W.BASE_TS - e1, W.BASE_TS - e2
+            cs, root, root2 = W.two_root_base(h0, HARD_TARGET if hard else W.TRIVIAL_TARGET, 171_360 - 10_080, st1, st2)
+            fts = W.BASE_TS - 10_000_000
+            filler_ts = (lambda h: st1 if h == 171_360 - 10_080 else fts)
+            self.second_root = (root2, (lambda h: st2 if h == 171_360 - 10_080 else fts))
         elif base == 'hboundary':
             reset_horizon(False)
             k = 2 + config.get('k', 0) % 5
@@ -131,6 +141,13 @@ class LedgerSim:
         self.stored = [rules.block_id(root)]
         self.block_objs = {self.stored[0]: root}
         self.trusted = set()
+        if getattr(self, 'second_root', None) is not None:
+            r2, f2 = self.second_root
+            rb2 = self.chain.add_root(r2)
+            self.chain.filler_ts_by_root = {rb2.id: f2}
+            self.stored.append(rb2.id)
+            self.block_objs[rb2.id] = r2
+            self.trusted.add(rb2.id)
         if easy is not None:
             self.trusted.add(rules.block_id(easy))
             self.chain.add(easy)
